@@ -7,6 +7,7 @@ import (
 	"io"
 	"log/slog"
 	"net"
+	"time"
 	"sort"
 
 	kmip "github.com/ovh/kmip-go"
@@ -79,10 +80,17 @@ type obs struct {
 
 // dialAndUse connects a client with the given options to a scripted or real server and performs
 // two requests plus one on a cloned client.
-func dialAndUse(c *core.Ctx, dial func(context.Context) (net.Conn, error), opts []kmipclient.Option, label string) (o obs, ok bool) {
+func dialAndUse(c *core.Ctx, dial func(context.Context) (net.Conn, error), opts []kmipclient.Option, label string, cluster bool) (o obs, ok bool) {
 	opts = append(opts, kmipclient.WithDialerUnsafe(dial))
 	var cl *kmipclient.Client
-	if p, pv, st := core.Guard(func() { cl, o.dialErr = kmipclient.Dial("mem", opts...) }); p {
+	if p, pv, st := core.Guard(func() {
+		if cluster {
+			// the second way to connect: a pool of addresses (the dialer option overrides how they are reached)
+			cl, o.dialErr = kmipclient.DialCluster([]string{"mem-a", "mem-b"}, opts...)
+		} else {
+			cl, o.dialErr = kmipclient.Dial("mem", opts...)
+		}
+	}); p {
 		c.Violation(core.PanicSig(pv, st), fmt.Sprintf("Dial panicked (%s): %v", label, pv), map[string]any{"stack": st})
 		return o, false
 	}
@@ -118,6 +126,7 @@ func scripted(c *core.Ctx, r *core.Rand, i int) {
 	sm := (i / 31) % 32
 	beh := behaviours[(i/(31*32))%5]
 	enforced := (i/(31*32*5))%2 == 1
+	cluster := (i/(31*32*5*2))%2 == 1
 	C, S := subset(cm), subset(sm)
 	common := []kmip.ProtocolVersion{}
 	for _, v := range S {
@@ -177,7 +186,15 @@ func scripted(c *core.Ctx, r *core.Rand, i int) {
 		opts = append(opts, kmipclient.EnforceVersion(enf))
 	}
 	label := fmt.Sprintf("client=%s server=%s behaviour=%s enforced=%v", fmtSet(C), fmtSet(S), beh, enforced)
-	o, ok := dialAndUse(c, func(context.Context) (net.Conn, error) { return srv.L.Dial() }, opts, label)
+	if cluster {
+		label += " via DialCluster"
+		if r.Bool() {
+			opts = append(opts, kmipclient.WithRetryTimeout(time.Second))
+			label += "+retry-timeout"
+		}
+		c.Count("dials.cluster", 1)
+	}
+	o, ok := dialAndUse(c, func(context.Context) (net.Conn, error) { return srv.L.Dial() }, opts, label, cluster)
 	if !ok {
 		return
 	}
@@ -265,7 +282,7 @@ func libraryServer(c *core.Ctx, r *core.Rand, i int) {
 	go func() { done <- srv.Serve() }()
 	defer func() { srv.Shutdown(); <-done }()
 	label := fmt.Sprintf("client=%s library-server=%s", fmtSet(C), fmtSet(S))
-	o, ok := dialAndUse(c, func(context.Context) (net.Conn, error) { return l.Dial() }, []kmipclient.Option{kmipclient.WithKmipVersions(C...)}, label)
+	o, ok := dialAndUse(c, func(context.Context) (net.Conn, error) { return l.Dial() }, []kmipclient.Option{kmipclient.WithKmipVersions(C...)}, label, i%2 == 1)
 	if !ok {
 		return
 	}
@@ -299,9 +316,9 @@ func Spec() *core.Spec {
 		Level: "exploration",
 		Rule: "exhaustive: 31 non-empty client subsets x 32 server subsets of {1.0..1.4} x server behaviour {conformant, discovery unsupported, lists versions not offered, unordered list, empty list} x {enforced, not enforced} against a scripted server that records every request header " +
 			"(two requests and one cloned client after each Dial; client options given in seeded order with duplicates), plus 31 x 31 against the library's own executor restricted with SetSupportedProtocolVersions; compared with a 10-line reference function. distinct = distinct configurations",
-		Required: []string{"dials.conformant", "dials.discovery-unsupported", "dials.lists-not-offered", "dials.unordered", "dials.empty-list", "dials.library-server", "expected_failures", "followup_headers"},
+		Required: []string{"dials.conformant", "dials.discovery-unsupported", "dials.lists-not-offered", "dials.unordered", "dials.empty-list", "dials.library-server", "dials.cluster", "expected_failures", "followup_headers"},
 		Families: []core.Family{
-			{Name: "scripted", Exhaustive: true, N: func(string) int { return 31 * 32 * 5 * 2 }, Run: scripted},
+			{Name: "scripted", Exhaustive: true, N: func(string) int { return 31 * 32 * 5 * 2 * 2 }, Run: scripted},
 			{Name: "library-server", Exhaustive: true, N: func(string) int { return 31 * 31 }, Run: libraryServer},
 		},
 	}
